@@ -1,5 +1,6 @@
 import Ubx.Model.WF
 import Ubx.Generated.Tables
+import Ubx.Proofs.NamesNodup
 /-!
 # C16 — every declared message type is usable and its fields have distinct names
 
@@ -83,5 +84,27 @@ example : wfDefn Gen.ctx true
      .bits (nm "flags") (.t cX 1) [(nm "a", .t cU 1), (nm "reserved0", .t cU 7)],
      .group (nm "group") (.named (nm "numCh")) [.attr (nm "x") (.t cI 4) (.flt 0x3F847AE147AE147B)]] = true := by
   decide +kernel
+
+theorem rule5_of_names (ctx : Ctx) (bf : Bool) (d : Defn) (h : distinctNames (if bf then namesOfL d else namesOf0L d) = false) :
+    5 ∈ brokenRules ctx bf d := by
+  unfold brokenRules
+  simp [h]
+
+/-- **no two payload fields are exposed under one attribute name**: for every shipped definition that is not recorded as a
+    W5 finding (SET CFG-NVS) and has no `_HP` part, and for every value tree, repeat count and nesting, the rendered
+    names of the prescribed assignments are pairwise distinct (flag view) -/
+theorem C16_no_two_fields_one_name (e : Mode × Name × Defn) (he : e ∈ allDefs Gen.ctx)
+    (hx : excused Gen.exempt e.1 e.2.1 (ruleName 5) = false) (hn : noHPL e.2.2 = true)
+    (vts : List VT) (l : List (AName × PyVal)) (h : assignsItems true [] e.2.2 vts = .ok l) :
+    (l.map (fun x => x.1)).Nodup := by
+  have hall := List.all_eq_true.mp C16_all_wf_flags e he
+  have hd : distinctNames (namesOfL e.2.2) = true := by
+    cases hc : distinctNames (namesOfL e.2.2) with
+    | true => rfl
+    | false =>
+      have h5 := rule5_of_names Gen.ctx true e.2.2 (by simpa using hc)
+      have := List.all_eq_true.mp hall 5 h5
+      rw [hx] at this; cases this
+  exact wf_assign_names_nodup true e.2.2 vts l hn (by simpa [namesVL] using hd) h
 
 end Ubx
